@@ -546,9 +546,14 @@ def evaluate_z3_seq_extract(
 
     return Some(
         construct_result(
-            lambda args: cast(str, args[0])[
-                cast(int, args[1]) : cast(int, args[1]) + cast(int, args[2])
-            ],
+            # SMT-LIB: (str.substr s i n) is "" if i < 0, i >= |s|, or n <= 0.
+            lambda args: (
+                cast(str, args[0])[
+                    cast(int, args[1]) : cast(int, args[1]) + cast(int, args[2])
+                ]
+                if cast(int, args[1]) >= 0 and cast(int, args[2]) > 0
+                else ""
+            ),
             children_results,
         )
     )
